@@ -74,7 +74,7 @@ class Ctx:
         if extra_inputs:
             ex.inputs = dict(saved)
             ex.inputs.update(extra_inputs)
-        m = ex.concretize(model, p.st)
+        m = ex.concretize(model, p)
         ex.inputs = saved
         self.add_violation(kind, msg, site, m, replay(m) if replay else None)
         return False
